@@ -168,7 +168,7 @@ PROPS = {
                      'not decided: sharing through mutable default arguments between managers; arrayed elements share _elements with the base element']),
     'C08': dict(
         mods=['contracts.c08_memo', 'contracts.c05_grid', 'contracts.c07_scenarios'], k1=K1_C08, level='proof',
-        harness='verif/native/c08_harness.py', harness_budget=(15, 90),
+        harness='verif/native/c08_harness.py', harness_budget=(15, 90), always_harness=True,
         explanation='cache-invalidation postconditions: after Element/Stock/Flow/Constant.equation setters, Stock.initial_value setter, '
                     'Model.reset_cache and SimulationScenario.reset_cache EVERY memo table is empty; generate_function installs the new function and '
                     'empties the own memo; Model.memoize writes a key only when absent and returns the stored value otherwise (single value per '
@@ -179,7 +179,7 @@ PROPS = {
                      'not decided: "equals a freshly built model" as a relation; it follows on paper from empty memo + C01 and is exercised by the native harness']),
     'C05': dict(
         mods=['contracts.c05_grid'], k1=K1_C05, level='proof', engines=['contracts.c05_extra'],
-        harness='verif/native/c05_harness.py', harness_budget=(20, 120), always_harness=False,
+        harness='verif/native/c05_harness.py', harness_budget=(20, 120), always_harness=True,
         explanation='float-agnostic contracts (round(x,p) uninterpreted with idempotence; canonical label = fixed point of round at the grid precision): '
                     'normalize returns a canonical label; timerange records only the start or canonical labels, consecutive ones related by the '
                     'successor function next_grid, all within the range and nothing missing at the end; Model.memoize stores and returns under the '
@@ -196,7 +196,7 @@ PROPS = {
         k1=['Model.memoize', 'Model.previous_time', 'Model.equation', 'SdElement.generate_function', 'SdElement.Element.equation.setter', 'SdElement.Stock.equation.setter',
             'SdElement.Flow.equation.setter', 'SdElement.Constant.equation.setter', 'SdElement.Stock.initial_value.setter', 'Model.reset_cache'],
         level='proof', engines=['contracts.c01_euler'],
-        harness='verif/native/c01_harness.py', harness_budget=(20, 120),
+        harness='verif/native/c01_harness.py', harness_budget=(20, 120), always_harness=True,
         explanation='K2 generator contracts: the text built by Stock/Flow.build_function_string and by the term() of every operator and built-in '
                     '(step, pulse, delay, lookup, dt/starttime/stoptime, min/max/abs/..., If/And/Or/Not, arithmetic) denotes the Euler spec expression of '
                     'the element with every operand read at the specified time; Smooth/Trend constructors build average\' = (input-average)/T as a biflow '
@@ -206,7 +206,7 @@ PROPS = {
         not_decided=['not decided: stochastic built-ins; arrayed elements (C10); float rounding of dt*flow (spec and code use the same expression tree)']),
     'C02': dict(
         mods=[], k1=[], level='proof', engines=['contracts.c02_grouping'],
-        harness='verif/native/c02_harness.py', harness_budget=(15, 90),
+        harness='verif/native/c02_harness.py', harness_budget=(15, 90), always_harness=True,
         explanation='K2: the real constructor and term() of every operator class of operators.py (27 classes) and every Python operator '
                     'overload of Operator/Element are executed symbolically over templates for every combination of operand kinds '
                     '(element, arbitrary operator, positive / negative number); obligations: the emitted text denotes Spec(class) with '
@@ -216,7 +216,7 @@ PROPS = {
         not_decided=['not decided: arrayed operands (C10); statistical / random functions; float association and rounding (semantic equality is over the reals)']),
     'C15': dict(
         mods=['contracts.c15_c18_server'], k1=K1_C15, level='proof', engines=['contracts.c15_routes'],
-        harness='verif/native/c15_harness.py', harness_budget=(60, 120),
+        harness='verif/native/c15_harness.py', harness_budget=(20, 120), always_harness=True,
         explanation='contract on the real decorator token_required.decorated (closure variable f = the wrapped view, entering it sets a ghost flag): '
                     'with a token configured, the view is entered only if the Authorization header is present and its second space-separated '
                     'word equals the token; otherwise the result is a fresh 401 response (or an exception propagates), and the instance '
@@ -227,7 +227,7 @@ PROPS = {
                      'observation, not a violation of the statement: the scheme word is not checked (Basic <token> is accepted); a header without a second word gives 500']),
     'C17': dict(
         mods=['contracts.c17_timeouts', 'contracts.c15_c18_server'], k1=K1_C17, level='proof',
-        harness='verif/native/c17_harness.py', harness_budget=(20, 90),
+        harness='verif/native/c17_harness.py', harness_budget=(20, 90), always_harness=True,
         explanation='ghost monotone clock ($now, advanced by every datetime.now()); representation invariant of the instance table; '
                     'sweep contract: entries alive at the latest clock reading survive unchanged, entries expired at the earliest reading are '
                     'removed and their bptk object destroyed exactly once; create_instance stores each of the seven timeout units (keyword or 0) '
@@ -237,7 +237,7 @@ PROPS = {
                      'not decided: real-time behaviour (the clock is a ghost)']),
     'C18': dict(
         mods=['contracts.c16_isolation'], k1=K1_C18, level='proof',
-        harness='verif/native/c18_harness.py', harness_budget=(20, 90),
+        harness='verif/native/c18_harness.py', harness_budget=(20, 90), always_harness=True,
         explanation='all-exit-paths lock contracts (normal return, every exception edge, generator closed at each yield) on _run_steps_resource, '
                     '_run_step_resource and the streamer generator, plus functional contracts on bptk.lock/unlock/is_locked: the lock of the addressed '
                     'instance is the same at exit as at entry; a request that finds it locked answers 500 and runs no step; the generator leaves the '
@@ -247,7 +247,7 @@ PROPS = {
                      'not decided: that the lock is released if the external state adapter raises after the steps']),
     'C11': dict(
         mods=['contracts.c11_c12_sched'], k1=K1_C11, level='proof', engines=['contracts.c11_lemmas'],
-        harness='verif/native/c11_harness.py', harness_budget=(15, 90),
+        harness='verif/native/c11_harness.py', harness_budget=(15, 90), always_harness=True,
         explanation='ghost-instrumented contracts (per-event delivery counter / receiver / sequence number, handler counter) on '
                     'the distribution loop of SimultaneousScheduler.run_step, Scheduler.handle_delayed_event, Agent.receive_event, '
                     'Agent.handle_events, Model.enqueue_event/broadcast_event: every event queued at the start of a step goes through '
@@ -260,7 +260,7 @@ PROPS = {
         ]),
     'C12': dict(
         mods=['contracts.c11_c12_sched'], k1=K1_C12, level='proof',
-        harness='verif/native/c12_harness.py', harness_budget=(15, 90),
+        harness='verif/native/c12_harness.py', harness_budget=(15, 90), always_harness=True,
         explanation='ghost callback trace: run_step appends exactly begin, (handle(a), act(a)) for every agent in list order, end, '
                     'and collect(time) iff data collection is on or it is the final step; run() logs a successor chain of (round, step) '
                     'pairs from (start,0) to (stop, S-1) -- every step once, in increasing time order; Model.run / run_step delegate',
@@ -285,7 +285,7 @@ PROPS = {
         ]),
     'C14': dict(
         mods=['contracts.c14_registry'], k1=K1_C14, level='proof',
-        harness='verif/native/c14_harness.py', harness_budget=(20, 90),
+        harness='verif/native/c14_harness.py', harness_budget=(20, 90), always_harness=True,
         explanation='representation invariant wf_registry + whole-view postconditions on every registry mutator and '
                     'query of Model, discharged function by function from the real source of BPTK_Py/modeling/model.py',
         assumptions=[
